@@ -9,6 +9,11 @@
 //! Script field `order`: bit 0 = the returned profiler is dropped before the Sim; bit 1 = everything alive at the
 //! stopping point is dropped BY UNWINDING (a panic raised while the Sim / runtime / result is alive, caught by
 //! catch_unwind) instead of normally.
+//! Script field `hold`: bit 0 = the caller keeps its GateRefs / ModuleRefs; bit 1 = the reference counts include the
+//! classes that need the hook of fixes/hook_own_counts.diff (the runner prints the single number 777 instead of a
+//! record if it was built against sources without that hook).
+//! Every record ends with `ncnt cnt*`: (strong, weak) reference counts read at the stopping point, before anything is
+//! dropped, with the runner's own measuring handles subtracted (see `Meter`); nothing after an error result.
 //! The simulation is executed THREE times in this process.  The records of the first two are printed:
 //!   ok res nrem time  created(proc elem task msg)  once(proc elem task msg)  notonce alive  nlog log*
 //! followed by one number: 1 iff the live heap (bytes or blocks, counted by a global allocator
@@ -60,6 +65,7 @@ static ALLOC: Counting = Counting;
 fn live_heap() -> (isize, isize) {
     *DROPS.lock().unwrap() = [Vec::new(), Vec::new(), Vec::new(), Vec::new()];
     *LOG.lock().unwrap() = Vec::new();
+    *COUNTS.lock().unwrap() = Vec::new();
     (LIVE_BYTES.load(SeqCst), LIVE_BLOCKS.load(SeqCst))
 }
 
@@ -385,6 +391,7 @@ struct Script {
     order: bool,
     unwind: bool,
     hold: bool,
+    hooked: bool,
     mods: Vec<Cfg>,
     links: Vec<[u64; 5]>,
     injs: Vec<[u64; 3]>,
@@ -397,7 +404,9 @@ fn decode(nums: &[u64]) -> Script {
     let order_raw = c.next();
     let order = order_raw % 2 == 1;
     let unwind = (order_raw / 2) % 2 == 1;
-    let hold = c.next() % 2 == 1;
+    let hold_raw = c.next();
+    let hold = hold_raw % 2 == 1;
+    let hooked = (hold_raw / 2) % 2 == 1;
     let nmod = c.next().min(6);
     let mut mods = Vec::new();
     for _ in 0..nmod {
@@ -422,12 +431,79 @@ fn decode(nums: &[u64]) -> Script {
         }
         injs.push([c.next(), c.next(), c.next()]);
     }
-    Script { stop, arg, order, unwind, hold, mods, links, injs }
+    Script { stop, arg, order, unwind, hold, hooked, mods, links, injs }
 }
+
+/// What the runner keeps in order to read reference counts at the stopping point: weak handles
+/// only, so that nothing is kept alive and no strong count is changed.
+#[derive(Default)]
+struct Meter {
+    globals: Option<std::sync::Weak<des::net::Globals>>,
+    gates: Vec<std::sync::Weak<des::net::gate::Gate>>,
+    channels: Vec<std::sync::Weak<Channel>>,
+    #[cfg(des_own_counts)]
+    probes: Vec<des::net::module::VerifOwnProbe>,
+}
+
+/// (strong, weak) of what `w` points to, without the handle made by upgrading and without `w` itself
+fn sw<T>(w: &std::sync::Weak<T>) -> [u64; 2] {
+    match w.upgrade() {
+        Some(a) => [std::sync::Arc::strong_count(&a) as u64 - 1, std::sync::Arc::weak_count(&a) as u64 - 1],
+        None => [0, 0],
+    }
+}
+
+impl Meter {
+    /// the channel stored in slot `slot` of `gate` (Connection::next_hop reads the slot opposite to `endpoint_id`)
+    fn channel_in_slot(gate: &GateRef, slot: u64) -> Option<std::sync::Weak<Channel>> {
+        let probe = des::net::gate::Connection {
+            endpoint: gate.clone(),
+            endpoint_id: if slot == 0 { 1 } else { 0 },
+            channel: None,
+        };
+        probe.next_hop().and_then(|c| c.channel).map(|c| std::sync::Arc::downgrade(&c))
+    }
+
+    #[allow(unused_variables)]
+    fn read(&self, hooked: bool) -> Vec<u64> {
+        let mut out = Vec::new();
+        out.extend(self.globals.as_ref().map_or([0, 0], sw));
+        #[cfg(des_own_counts)]
+        if hooked {
+            match self.globals.as_ref().and_then(std::sync::Weak::upgrade) {
+                Some(g) => {
+                    let (s, w) = g.verif_tree_counts();
+                    out.extend([s as u64, w as u64]);
+                }
+                None => out.extend([0, 0]),
+            }
+            for p in &self.probes {
+                match p.counts() {
+                    // ctx (s, w - probe), processor (s, w - probe), runtime, local set, queue s w n (slot s w)*
+                    Some(c) => {
+                        out.extend([c[0] as u64, c[1] as u64 - 1, c[2] as u64, c[3] as u64 - 1]);
+                        out.extend(c[4..].iter().map(|&x| x as u64));
+                    }
+                    None => out.extend([0, 0, 0, 0, 0, 0, 0, 0, 0]),
+                }
+            }
+        }
+        for g in &self.gates {
+            out.extend(sw(g));
+        }
+        for c in &self.channels {
+            out.extend(sw(c));
+        }
+        out
+    }
+}
+
+static COUNTS: Mutex<Vec<u64>> = Mutex::new(Vec::new());
 
 fn run_once(sc: &Script) -> Vec<u64> {
     *DROPS.lock().unwrap() = [Vec::new(), Vec::new(), Vec::new(), Vec::new()];
     LOG.lock().unwrap().clear();
+    *COUNTS.lock().unwrap() = Vec::new();
     NMSG.store(0, SeqCst);
     NTASK.store(0, SeqCst);
 
@@ -440,6 +516,8 @@ fn run_once(sc: &Script) -> Vec<u64> {
     let life = || {
         let unwind = sc.unwind;
         let mut sim = Sim::new(());
+        let mut meter = Meter::default();
+        meter.globals = Some(std::sync::Arc::downgrade(&sim.globals()));
         // modules; a parent index that does not name an earlier module means top level
         let mut paths: Vec<String> = Vec::new();
         for (i, cfg) in sc.mods.iter().enumerate() {
@@ -501,7 +579,13 @@ fn run_once(sc: &Script) -> Vec<u64> {
             } else {
                 None
             };
+            let with_channel = ch.is_some();
             gates[ma][ga].clone().connect(gates[mb][gb].clone(), ch);
+            if with_channel {
+                // the instance for the direction a -> b is stored at a, the other one at b
+                meter.channels.extend(Meter::channel_in_slot(&gates[ma][ga], nconn[ma][ga]));
+                meter.channels.extend(Meter::channel_in_slot(&gates[mb][gb], nconn[mb][gb]));
+            }
             nconn[ma][ga] += 1;
             nconn[mb][gb] += 1;
             pairs.insert(((ma, ga), (mb, gb)));
@@ -511,6 +595,11 @@ fn run_once(sc: &Script) -> Vec<u64> {
             .iter()
             .map(|p| sim.get(&ObjectPath::from(p.as_str())).expect("module"))
             .collect();
+        meter.gates = gates.iter().flatten().map(std::sync::Arc::downgrade).collect();
+        #[cfg(des_own_counts)]
+        {
+            meter.probes = modrefs.iter().map(ModuleRef::verif_own_probe).collect();
+        }
         // handles the caller keeps: module refs first, then gates (release order of the model)
         let mut held_mods: Vec<ModuleRef> = Vec::new();
         let mut held_gates: Vec<GateRef> = Vec::new();
@@ -523,6 +612,7 @@ fn run_once(sc: &Script) -> Vec<u64> {
             let s = sim.freeze();
             drop(modrefs);
             drop(gates);
+            *COUNTS.lock().unwrap() = meter.read(sc.hooked);
             if unwind {
                 let _keep = s;
                 panic!("drop by unwinding");
@@ -559,6 +649,7 @@ fn run_once(sc: &Script) -> Vec<u64> {
                 1 => {
                     nrem.set(rt.num_events_remaining() as u64);
                     time.set(rt.sim_time().as_nanos() as u64);
+                    *COUNTS.lock().unwrap() = meter.read(sc.hooked);
                     if unwind {
                         let _keep = rt;
                         panic!("drop by unwinding");
@@ -570,6 +661,7 @@ fn run_once(sc: &Script) -> Vec<u64> {
                     rt.dispatch_n_events(sc.arg as usize);
                     nrem.set(rt.num_events_remaining() as u64);
                     time.set(rt.sim_time().as_nanos() as u64);
+                    *COUNTS.lock().unwrap() = meter.read(sc.hooked);
                     if unwind {
                         let _keep = rt;
                         panic!("drop by unwinding");
@@ -581,6 +673,7 @@ fn run_once(sc: &Script) -> Vec<u64> {
                         res.set(1);
                         nrem.set(prof.remaining.len() as u64);
                         time.set(t.as_nanos() as u64);
+                        *COUNTS.lock().unwrap() = meter.read(sc.hooked);
                         if unwind {
                             // e.g. an assertion on the result fails while it is still alive
                             if sc.order {
@@ -658,11 +751,19 @@ fn run_once(sc: &Script) -> Vec<u64> {
     for e in lg {
         out.extend(e);
     }
+    let cnts = COUNTS.lock().unwrap().clone();
+    out.push(cnts.len() as u64);
+    out.extend(cnts);
     out
 }
 
 fn run_line(nums: &[u64]) -> Vec<u64> {
     let sc = decode(nums);
+    #[cfg(not(des_own_counts))]
+    if sc.hooked {
+        // built against sources without fixes/hook_own_counts.diff
+        return vec![777];
+    }
     let mut out = run_once(&sc);
     // a second simulation in the same process
     let second = run_once(&sc);
